@@ -52,10 +52,11 @@ const (
 	PropMulti                  // MULTI
 	PropExec                   // EXEC
 	PropNoop                   // an executed write that changed nothing: omitted (no bytes)
+	PropPing                   // the master's periodic PING (AppendPing)
 )
 
 func (k PropKind) String() string {
-	return [...]string{"write", "select", "multi", "exec", "noop"}[k]
+	return [...]string{"write", "select", "multi", "exec", "noop", "ping"}[k]
 }
 
 // Rewrite kinds reported in PropCmd.Rewrite.
@@ -367,6 +368,56 @@ func (p *Propagation) emit(ops []propOp, wrap bool) {
 	for _, fn := range cbs {
 		fn(start, chunk)
 	}
+}
+
+// MasterConn is the connection number the log attributes the master's own traffic to (AppendPing).
+const MasterConn int64 = -2
+
+// AppendPing appends the PING a master sends to its replicas every repl-ping-replica-period
+// (replicationCron → replicationFeedSlaves with dictid -1: no SELECT, never inside a MULTI block).
+func (p *Propagation) AppendPing() {
+	p.srv.mu.Lock()
+	defer p.srv.mu.Unlock()
+	var out bytes.Buffer
+	p.mu.Lock()
+	start := p.base + int64(len(p.buf))
+	args := [][]byte{[]byte("PING")}
+	encodeCmd(&out, args)
+	p.log = append(p.log, PropCmd{Idx: len(p.log), Kind: PropPing, Start: start, End: start + int64(out.Len()), DB: p.lastDB, Args: args,
+		Unit: p.units, Conn: MasterConn})
+	p.units++
+	p.stats["ping_emitted"]++
+	chunk := out.Bytes()
+	p.buf = append(p.buf, chunk...)
+	close(p.wake)
+	p.wake = make(chan struct{})
+	cbs := p.onApp
+	p.mu.Unlock()
+	for _, fn := range cbs {
+		fn(start, chunk)
+	}
+}
+
+// AppendUnit injects one propagation unit into the stream as if connection conn had executed
+// cmds (command name first) in database db: a directed probe for stream shapes the double's
+// command model does not produce by itself (e.g. the lazy-expiry DEL a master places in front
+// of a command that found its key expired).  wrap = inside MULTI … EXEC.
+func (p *Propagation) AppendUnit(db int, conn int64, cmds [][][]byte, wrap bool) {
+	if len(cmds) == 0 {
+		return
+	}
+	p.srv.mu.Lock()
+	defer p.srv.mu.Unlock()
+	p.srv.seq++ // a request number of its own, so that the unit is not confused with a real request
+	ops := make([]propOp, 0, len(cmds))
+	for i, c := range cmds {
+		txn := int64(0)
+		if wrap {
+			txn = p.srv.seq
+		}
+		ops = append(ops, propOp{db: db, cmd: up(c[0]), args: c[1:], out: c, conn: conn, reqSeq: p.srv.seq, txn: txn, pos: i})
+	}
+	p.emit(ops, wrap)
 }
 
 // ---------------------------------------------------------------------------------------------
